@@ -336,7 +336,12 @@ def r3(cx, g):
             got = parse_fields(m["action"] or "", ctor)
             lab = [l for l, _ in m["items"] if l]
             why = []
-            if got != want: why.append("action builds %s, expected %s{%s}" % (m["action"], ctor, want))
+            want2 = dict(want)
+            if want2.get("doc") == "trim_doc ( d )" and got is not None and got.get("doc") == "d":
+                # `d:doc()` where rule doc captures the leading trivia and trims it (judged by doc-is-leading-trivia below)
+                first = m["items"][0] if m["items"] else (None, None)
+                if first[0] == "d" and first[1][0] == "call": want2["doc"] = "d"
+            if got != want2: why.append("action builds %s, expected %s{%s}" % (m["action"], ctor, want))
             if lab != labels: why.append("captures are %s, expected %s" % (lab, labels))
             cx.check(not why, "C11.R3", key, site(rule), "; ".join(why), note_ok="%s fields <- captures %s" % (ctor, labels))
     # what each capture captures
@@ -350,22 +355,49 @@ def r3(cx, g):
     arrow = [i for i, (l, e) in enumerate(order) if e == ("lit", "->")]
     ok = arrow and idx.get("i", 99) < arrow[0] < idx.get("o", -1) and cap("method", 0, "i") == ("call", "vstruct") and cap("method", 0, "o") == ("call", "vstruct") and cap("method", 0, "n") == ("call", "name")
     cx.check(bool(ok), "C11.R3", "grammar:method:input-before-arrow", site("method"), "method's input/output captures are not the structs before/after '->'", note_ok="i = vstruct before '->', o = vstruct after")
-    # doc captures: leading trivia d:$(wce()*) at position 0 of every member and of the interface
+    # doc captures: leading trivia d:$(wce()*) at position 0 of every member and of the interface — either spelled in place
+    # (`d:$(wce()*) .. trim_doc(d)`) or through a rule that captures exactly that trivia and trims it (`d:doc() .. d`)
+    doc_rules = set()
+    for rn, alts in g.meta.items():
+        if len(alts) == 1 and len(alts[0]["items"]) == 1 and alts[0]["items"][0][1] == ("star", ("call", "wce")) and "trim_doc(" in (alts[0]["action"] or "").replace(" ", ""):
+            doc_rules.add(rn)
+    def doc_field(rule, ai):
+        """text the `doc` member must have in this alternative's action, or None when the doc capture is not the leading trivia"""
+        mm = g.meta[rule][ai]
+        first = mm["items"][0] if mm["items"] else (None, None)
+        if first[0] == "d" and first[1] == ("star", ("call", "wce")): return "trim_doc ( d )"
+        if first[0] == "d" and first[1][0] == "call" and first[1][1] in doc_rules: return "d"
+        return None
     for rule in ("method", "vtypedef", "error", "ParseInterface"):
         for ai, mm in enumerate(g.meta[rule]):
-            first = mm["items"][0] if mm["items"] else (None, None)
-            cx.check(first[0] == "d" and first[1] == ("star", ("call", "wce")), "C11.R3", "grammar:%s#%d:doc-is-leading-trivia" % (rule, ai), site(rule),
+            cx.check(doc_field(rule, ai) is not None, "C11.R3", "grammar:%s#%d:doc-is-leading-trivia" % (rule, ai), site(rule),
                      "documentation capture is not the trivia in front of the member", note_ok="d = $(wce()*) in front")
     # typedef: two alternatives (struct, enum) wrapped in the matching variant
     td = g.meta["vtypedef"]
     want_td = [("vstruct", "VStructOrEnum : : VStruct ( Box : : new ( v ) )"), ("venum", "VStructOrEnum : : VEnum ( Box : : new ( v ) )")]
-    for ai, (callee, elt) in enumerate(want_td):
+    factored = None
+    if len(td) == 1:
+        # left-factored spelling: `"type" n:name() v:<rule>()` where <rule> = vstruct wrapped / venum wrapped
+        vcap = None; vlab = None
+        for l, e in td[0]["items"]:
+            if l and e[0] == "call" and e[1] in g.meta and len(g.meta[e[1]]) == 2 and e[1] not in ("name",): vcap, vlab = e, l
+        if vcap is not None:
+            sub = g.meta[vcap[1]]
+            oks = []
+            for ai, (callee, elt) in enumerate(want_td):
+                lab = [l for l, e in sub[ai]["items"] if e == ("call", callee)]
+                oks.append(bool(lab) and (sub[ai]["action"] or "").replace(" ", "") == elt.replace(" ", "").replace("(v)", "(%s)" % lab[0]))
+            got = parse_fields(td[0]["action"] or "", "Typedef")
+            factored = all(oks) and got == {"name": "n", "doc": doc_field("vtypedef", 0), "elt": vlab} and cap("vtypedef", 0, "n") == ("call", "name")
+            cx.check(factored, "C11.R3", "grammar:vtypedef#0:action", site("vtypedef"), "typedef builds %s through rule %s (%s)" % (td[0]["action"], vcap[1], [x["action"] for x in sub]),
+                     note_ok="Typedef{name:n, doc, elt: %s() = VStruct(vstruct) | VEnum(venum)}" % vcap[1])
+    for ai, (callee, elt) in enumerate(want_td if factored is None else []):
         got = parse_fields(td[ai]["action"] or "", "Typedef") if ai < len(td) else None
-        good = got == {"name": "n", "doc": "trim_doc ( d )", "elt": elt} and cap("vtypedef", ai, "v") == ("call", callee) and cap("vtypedef", ai, "n") == ("call", "name")
+        good = ai < len(td) and got == {"name": "n", "doc": doc_field("vtypedef", ai), "elt": elt} and cap("vtypedef", ai, "v") == ("call", callee) and cap("vtypedef", ai, "n") == ("call", "name")
         cx.check(good, "C11.R3", "grammar:vtypedef#%d:action" % ai, site("vtypedef"), "typedef alternative %d builds %s" % (ai, td[ai]["action"] if ai < len(td) else None), note_ok="Typedef{name:n, doc, elt:%s}" % callee)
     # interface: from_token(__input, n, mt, trim_doc(d)) with n = $interface_name(), mt = member ++ eol
     pi = g.meta["ParseInterface"][0]
-    good = (pi["action"] or "").replace(" ", "") == "IDL::from_token(__input,n,mt,trim_doc(d))" and cap("ParseInterface", 0, "n") == ("call", "interface_name") \
+    good = (pi["action"] or "").replace(" ", "") == "IDL::from_token(__input,n,mt,%s)" % (doc_field("ParseInterface", 0) or "?").replace(" ", "") and cap("ParseInterface", 0, "n") == ("call", "interface_name") \
            and cap("ParseInterface", 0, "mt") == ("sepplus", ("call", "member"), ("call", "eol"))
     cx.check(good, "C11.R3", "grammar:ParseInterface:action", site("ParseInterface"), "interface action is %s" % pi["action"], note_ok="IDL::from_token(__input, n, mt, trim_doc(d))")
     # type_ actions: constructor nesting equals the prefix sequence
